@@ -30,7 +30,9 @@ PATH_ATOMS = ["user", 0]
 PATHS = [ABSENT, None] + [list(p) for n in range(0, 4) for p in itertools.product(["user", 0], repeat=n)]
 PATHS += [["0", 0], ["a", 2147483647, "é"], [-1]]
 LOCATIONS = [[{"line": 3, "column": 7}], ABSENT, None, [], [{"line": 1, "column": 2}, {"line": 30, "column": 40}],
-             [{"line": 2147483647, "column": 0, "extra": True}]]
+             [{"line": 2147483647, "column": 0, "extra": True}],
+             # not in document order, and a tie on the line: "first" must mean first in the list
+             [{"line": 30, "column": 40}, {"line": 1, "column": 2}], [{"line": 3, "column": 20}, {"line": 3, "column": 4}, {"line": 2, "column": 9}]]
 EXTENSIONS = [{"code": "X"}, ABSENT, None, {}, {"n": 1.5, "deep": {"a": [1, None, {"b": "é"}], "t": True}, "z": None}]
 MESSAGES = ["boom", "", "multi\nline: é \"q\""]
 MAP_DATA = [{"a": 1, "b": {"c": [1, None, "x"]}}, ABSENT, None, {}]
